@@ -137,7 +137,7 @@ def _helpers(ctx, N, d, rng):
         jj = np.minimum(i, j)
         ref = math.prod(math.comb(int(a), int(b)) for a, b in zip(i, jj))
         got = EI.multi_index_binomial(i, jj)
-        if abs(got - ref) > 1e-12 * max(1, ref):
+        if not abs(got - ref) <= 1e-12 * max(1, ref):
             ctx.violation('binomial:int', {'i': i.tolist(), 'j': jj.tolist(), 'got': float(got), 'want': ref}); return
         # generalised binomial with real upper argument, as used by gamma()
         z = d * jj / max(1, int(jj.sum()))
@@ -146,7 +146,7 @@ def _helpers(ctx, N, d, rng):
             for kq in range(int(b)):
                 ref2 *= Fraction(float(zz) - kq) / (int(b) - kq)
         got2 = EI.multi_index_binomial(z, j)
-        if abs(Fraction(float(got2)) - ref2) > Fraction(1, 10 ** 11) * max(1, abs(ref2)):
+        if not np.isfinite(got2) or abs(Fraction(float(got2)) - ref2) > Fraction(1, 10 ** 11) * max(1, abs(ref2)):
             ctx.violation('binomial:real', {'i': z.tolist(), 'j': j.tolist(), 'got': float(got2), 'want': float(ref2)}); return
         ctx.ok('binomial', ('binom', N, d))
         ref = math.prod(math.factorial(int(v)) for v in i)
